@@ -46,6 +46,7 @@ func GenGeom(r *gen.R, coord func(*gen.R) float64) (geom.Geom, string, bool) {
 	k := ks[r.Intn(len(ks))]
 	o := &gen.GeomOpts{Coord: coord, MaxMembers: 5, MaxVerts: 6, MinVerts: 0, MinMembers: 1}
 	if r.Chance(0.02) {
+		o.BigPath, o.MaxMembers = 0.3, 2 // paths of 63 .. 65537 vertices (documents beyond 4 KiB / 64 KiB / 1 MiB buffers)
 		o.MaxVerts = 1500 // large coordinate arrays
 	}
 	g := gen.RandGeomKind(r, o, k, 0)
